@@ -21,13 +21,16 @@ pub enum Site {
     AfterFinishedSet,
     FinishErrorText(usize),
     FinishErrorBin(usize),
+    /// finish_error while the last row is still open (write_col without end_row), k rows before it
+    FinishErrorTextOpen(usize),
+    FinishErrorBinOpen(usize),
     ExecuteFirst,
     Prepare,
     InitDb,
     UseStmt,
 }
 
-pub const SITES: [Site; 11] = [
+pub const SITES: [Site; 15] = [
     Site::QueryFirst,
     Site::AfterCompleteOne,
     Site::AfterFinishedSet,
@@ -35,6 +38,10 @@ pub const SITES: [Site; 11] = [
     Site::FinishErrorText(3),
     Site::FinishErrorBin(0),
     Site::FinishErrorBin(2),
+    Site::FinishErrorTextOpen(0),
+    Site::FinishErrorTextOpen(2),
+    Site::FinishErrorBinOpen(0),
+    Site::FinishErrorBinOpen(2),
     Site::ExecuteFirst,
     Site::Prepare,
     Site::InitDb,
@@ -110,6 +117,18 @@ fn conv_for(site: Site, kind: u16, msg: &[u8]) -> (Conversation, usize) {
             vec![prep.1, Action::Result(Program { steps: vec![Step::Set { cols: cols_t.clone(), rows: (0..k).map(row).collect(), end: SetEnd::FinishError { kind, msg: msg.to_vec() } }] })],
             1,
         ),
+        Site::FinishErrorTextOpen(k) | Site::FinishErrorBinOpen(k) => {
+            let mut rows: Vec<RowProg> = (0..k).map(row).collect();
+            let mut open = row(k);
+            open.form = RowForm::ColsOpen;
+            rows.push(open);
+            let prog = Program { steps: vec![Step::Set { cols: cols_t.clone(), rows, end: SetEnd::FinishError { kind, msg: msg.to_vec() } }] };
+            if matches!(site, Site::FinishErrorTextOpen(_)) {
+                (vec![q], vec![Action::Result(prog)], 0)
+            } else {
+                (vec![prep.0, exec], vec![prep.1, Action::Result(prog)], 1)
+            }
+        }
         Site::ExecuteFirst => (vec![prep.0, exec], vec![prep.1, Action::Result(Program { steps: vec![err] })], 1),
         Site::Prepare => (vec![Cmd::Prepare { text: Blob::text("p") }], vec![Action::Prepare(PrepProg::Error { kind, msg: msg.to_vec() })], 0),
         Site::InitDb => (vec![Cmd::InitDb { name: Blob::text("db") }], vec![Action::Init(InitProg::Error { kind, msg: msg.to_vec() })], 0),
@@ -151,10 +170,10 @@ impl Prop for C13 {
         "C13"
     }
     fn rule(&self) -> String {
-        format!("cases = (a) sweeps: a contiguous slice of the {} ErrorKind variants (list re-read from src/errorcodes.rs at build time) x one of 11 reporting sites (query error first; after complete_one; after a finished set; finish_error after 0/3 text rows and 0/2 binary rows; execute error; prepare error; COM_INIT_DB error; `USE` error) x one message (empty, ASCII, arbitrary bytes, 250-400 bytes, 65535/70000 bytes, containing '#', NUL, 0xFF); the quick tier enumerates every kind at a rotating site and every site; (b) table checks: ErrorKind::from(k as u16) == k for every variant, SQLSTATE is 5 bytes of [0-9A-Z], curated well-known (code, SQLSTATE) pairs, the (name, code) table extracted from the mysql crate, and a pinned snapshot of the whole SQLSTATE table (a change detector, stated as such). Oracle: the ERR packet decodes (own decoder + mysql_common::ErrPacket) to code = kind as u16, marker '#', state = kind.sqlstate(), identical message bytes. Non-trivial = a site other than 'query error first', or a non-ASCII/long message.", ERROR_KINDS.len())
+        format!("cases = (a) sweeps: a contiguous slice of the {} ErrorKind variants (list re-read from src/errorcodes.rs at build time) x one of 15 reporting sites (query error first; after complete_one; after a finished set; finish_error after 0/3 text rows and 0/2 binary rows, and with the last row still open (write_col without end_row) in both protocols; execute error; prepare error; COM_INIT_DB error; `USE` error) x one message (empty, ASCII, arbitrary bytes, 250-400 bytes, 65535/70000 bytes, containing '#', NUL, 0xFF); the quick tier enumerates every kind at a rotating site and every site; (b) table checks: ErrorKind::from(k as u16) == k for every variant, SQLSTATE is 5 bytes of [0-9A-Z], curated well-known (code, SQLSTATE) pairs, the (name, code) table extracted from the mysql crate, and a pinned snapshot of the whole SQLSTATE table (a change detector, stated as such). Oracle: the ERR packet decodes (own decoder + mysql_common::ErrPacket) to code = kind as u16, marker '#', state = kind.sqlstate(), identical message bytes. Non-trivial = a site other than 'query error first', or a non-ASCII/long message.", ERROR_KINDS.len())
     }
     fn exhaustive_note(&self, _tier: Tier) -> Option<String> {
-        Some("all ErrorKind variants (each at >= 1 site), all 11 sites; thorough: all variants x all sites".into())
+        Some("all ErrorKind variants (each at >= 1 site), all 15 sites; thorough: all variants x all sites".into())
     }
     fn assumptions(&self) -> Vec<String> {
         vec!["the pinned SQLSTATE snapshot (data/sqlstate_snapshot.json) equals the table of the pinned tree; it detects swapped/changed arms but would also flag a deliberate upstream correction".into()]
